@@ -212,7 +212,116 @@ def gen_concepts():
     return provides, rows, skipped
 
 
-GENERATORS = [gen_concepts]
+# ---------------------------------------------------------------------------------------------------------------
+# Pinned source sites (round 4): every statement that AITB.Model.Cursor / AITB.Model.CursorUtil transcribes, as a literal of
+# the comment-free, whitespace-free source text with the number of times it must occur.  A missing site means the cursor
+# model no longer transcribes the code: ExtractError + the obligation `c10_sites_as_modelled` re-opens.  The capacity that
+# `set_union_inplace` reserves is TRANSLATED (not just pinned): `Gen.C10Sites.unionReserve` is the expression as written,
+# and `unionReserve_sufficient` (Props.C10Sites) is the hypothesis of `setUnion_no_realloc`.
+FCORE = 'src/Factored/Utils/Core.cpp'
+UCORE = 'include/AIToolbox/Utils/Core.hpp'
+COMBH = 'include/AIToolbox/Utils/Combinatorics.hpp'
+COMBC = 'src/Utils/Combinatorics.cpp'
+FGH = 'include/AIToolbox/Factored/Utils/FactorGraph.hpp'
+POLY = 'include/AIToolbox/Utils/Polytope.hpp'
+BG = 'include/AIToolbox/POMDP/Algorithms/Utils/BeliefGenerator.hpp'
+
+SITES = [
+    # ---- Factored::match(keys, values, keys, values)  (Cursor.matchLoop / matchPartial)
+    (FCORE, 'match_swap', 'const PartialKeys * smallerK = &lhsK, * biggerK = &rhsK; const PartialValues * smallerV = &lhs, * biggerV = &rhs; if (lhsK.size() > rhsK.size()) { std::swap(smallerK, biggerK); std::swap(smallerV, biggerV); }', 1),
+    (FCORE, 'match_loop', 'size_t i = 0, j = 0; while (j < smallerK->size() && i < biggerK->size()) { if ((*biggerK)[i] < (*smallerK)[j]) ++i; else if ((*biggerK)[i] > (*smallerK)[j]) ++j; else { if ((*biggerV)[i] != (*smallerV)[j]) return false; ++i; ++j; } } return true;', 1),
+    # ---- SubsetEnumerator (CursorUtil.scanDown / fillUp / advance / isValid / reset)
+    (COMBH, 'subset_ctor', 'lowerBound_(lowerBound), upperBound_(upperBound), ids_(elementsN)', 1),
+    (COMBH, 'subset_advance', 'auto advance() { auto current = ids_.size() - 1; auto ub = upperBound_ - 1; while (current && ids_[current] == ub) --current, --ub; auto lowest = current; ub = ++ids_[current]; while (++current != ids_.size()) ids_[current] = ++ub; return lowest; }', 1),
+    (COMBH, 'subset_isValid', 'bool isValid() const { return ids_.back() < upperBound_; }', 1),
+    (COMBH, 'subset_reset', 'void reset() { std::iota(std::begin(ids_), std::end(ids_), lowerBound_); }', 1),
+    (COMBH, 'subset_subsetsSize', 'return nChooseK(upperBound_ - lowerBound_, ids_.size());', 1),
+    # ---- nChooseK (CursorUtil.chooseLoop / nChooseK)
+    (COMBC, 'nChooseK', 'unsigned nChooseK(const unsigned n, unsigned k) { if (k > n) return 0; if (k * 2 > n) k = n-k; if (k == 0) return 1; auto result = n; for (unsigned i = 2; i <= k; ++i) { result *= (n-i+1); result /= i; } return result; }', 1),
+    (COMBC, 'starsBars', 'return nChooseK(stars + bars, bars);', 1),
+    (COMBC, 'nonZeroStarsBars', 'return nChooseK(stars - 1, bars);', 1),
+    # ---- set_union_inplace (CursorUtil.setDiffLoop / inplaceMerge); the reserve argument is translated below
+    (UCORE, 'union_mid', 'const auto mid = lhs.size();', 1),
+    (UCORE, 'union_difference_into_lhs', 'std::set_difference(std::begin(rhs), std::end(rhs), std::begin(lhs), std::end(lhs), std::back_inserter(lhs));', 1),
+    (UCORE, 'union_merge', 'std::inplace_merge(std::begin(lhs), std::begin(lhs)+mid, std::end(lhs));', 1),
+    (FGH, 'getVariables_list_uses_union', 'set_union_inplace(retval, factor->variables_);', 1),
+    # ---- FactorGraph neighbour bookkeeping (FGCursor.nbLoop / mergeNeighbours / addAll / eraseAll / eraseVar)
+    (FGH, 'getFactor_per_variable', 'it->variables_ = variables; for (const auto a : variables) { auto & va = variableAdjacencies_[a]; va.factors.push_back(it); const auto mid = va.vNeighbors.size(); va.vNeighbors.reserve(mid + variables.size() - 1);', 1),
+    (FGH, 'getFactor_neighbour_loop', 'for (size_t i = 0, j = 0; i < variables.size(); ) { if (variables[i] == a) { ++i; } else if (j == mid || variables[i] < va.vNeighbors[j]) { va.vNeighbors.push_back(variables[i]); ++i; } else { if (variables[i] == va.vNeighbors[j]) ++i; ++j; } } std::inplace_merge(std::begin(va.vNeighbors), std::begin(va.vNeighbors)+mid, std::end(va.vNeighbors));', 1),
+    (FGH, 'erase_inactive_returns', 'auto & va = variableAdjacencies_[a]; if (!va.active) return;', 1),
+    (FGH, 'erase_from_neighbours', 'for (const auto aa : va.vNeighbors) { auto & vaa = variableAdjacencies_[aa]; vaa.vNeighbors.erase(std::find(std::begin(vaa.vNeighbors), std::end(vaa.vNeighbors), a)); }', 1),
+    (FGH, 'erase_clear', 'va.factors.clear(); va.vNeighbors.clear(); va.active = false; --activeVariables_;', 1),
+    # ---- sequential_sorted_contains(v, elems), sequential_sorted_find, veccmp (CursorUtil.containsLoop / skipLess / veccmpLoop)
+    (UCORE, 'contains_equal_size', 'assert(elems.size() <= v.size()); if (v.size() == elems.size()) return veccmp(v, elems) == 0;', 1),
+    (UCORE, 'contains_loop', 'decltype(v.size()) i = 0, j = 0; while (j < elems.size()) { while (i < v.size() && v[i] < elems[j]) ++i; if (i == v.size() || v[i] > elems[j]) return false; ++i, ++j; } return j == elems.size();', 1),
+    (UCORE, 'sorted_find', 'while (begin != end && *begin < elem) ++begin; return begin;', 1),
+    (UCORE, 'sorted_contains_elem', 'const auto it = sequential_sorted_find(begin, end, elem); if (it != end && *it == elem) return true; return false;', 1),
+    (UCORE, 'veccmp', 'assert(lhs.size() == rhs.size()); for (decltype(lhs.size()) i = 0; i < lhs.size(); ++i) { if (lhs[i] == rhs[i]) continue; return lhs[i] > rhs[i] ? std::strong_ordering::greater : std::strong_ordering::less; } return std::strong_ordering::equal;', 1),
+    (UCORE, 'veccmpSmall', 'if (checkEqualSmall(lhs[i], rhs[i])) continue; return lhs[i] <=> rhs[i];', 1),
+    (UCORE, 'veccmpGeneral', 'if (checkEqualGeneral(lhs[i], rhs[i])) continue; return lhs[i] <=> rhs[i];', 1),
+    (UCORE, 'checkEqualSmall', 'return ( std::fabs(a - b) <= equalToleranceSmall );', 1),
+    (UCORE, 'checkEqualGeneral', 'if ( checkEqualSmall(a,b) ) return true; return ( std::fabs(a - b) <= std::min(std::fabs(a), std::fabs(b)) * equalToleranceGeneral );', 1),
+    (UCORE, 'max_element_unary', 'if (begin == end) return std::make_pair(end, 0.0); auto retval = begin; double max = std::invoke(unary_converter, *begin); while (++begin != end) { auto newV = std::invoke(unary_converter, *begin); if (newV > max) { retval = begin; max = newV; } } return std::make_pair(retval, max);', 1),
+    # ---- BeliefGenerator::expandBeliefList selection loop (BGCursor.selectStep / selectLoop / argmaxFirst)
+    (BG, 'select_bound', 'beliefsToAdd = std::min(beliefsToAdd, allBeliefsSize_ - goodBeliefsSize_); for (size_t i = 0; i < beliefsToAdd; ++i) {', 1),
+    (BG, 'select_argmax', 'auto dBegin = std::begin(distances), dEnd = std::end(distances); size_t id = std::distance( dBegin, std::max_element(dBegin, dEnd) );', 1),
+    (BG, 'select_double_swap', 'std::swap(distances[id], distances.back()); std::swap(bl[goodBeliefsSize_ + id], bl[allBeliefsSize_ - 1]); std::swap(bl[goodBeliefsSize_], bl[allBeliefsSize_ - 1]);', 1),
+    (BG, 'select_break', '++goodBeliefsSize_; if (goodBeliefsSize_ >= max) break;', 1),
+    (BG, 'select_pop_and_recompute', 'distances.pop_back(); seenObservations.emplace_back(); unproductiveBeliefs.emplace_back(); ++productiveBeliefs_; for (size_t k = 0; k < distances.size(); ++k) { distances[k] = std::min(distances[k], computeDistance(bl[goodBeliefsSize_ - 1], bl[goodBeliefsSize_ + k])); }', 1),
+    # ---- the caller that relies on `advance()`'s return value and on isValid()/reset()
+    (POLY, 'naive_enumerator', 'SubsetEnumerator enumerator(S - 1, 0ul, alphasSize + S);', 1),
+    (POLY, 'naive_uses_lowest', 'last = enumerator.advance();', 1),
+    (POLY, 'naive_last_starts_at_zero', 'enumerator.reset(); size_t last = 0; while (enumerator.isValid()) { for (auto i = last; i < enumerator->size(); ++i) {', 1),
+    (POLY, 'naive_row_of_id', 'const auto index = (*enumerator)[i]; if (index < alphasSize) { m.row(i + 1).head(S) = std::invoke(p2, *std::next(alphasBegin, index)) * scale; m.row(i + 1)[S] = -1; } else { m.row(i + 1).setZero(); m.row(i + 1)[index - alphasSize] = 1.0; }', 1),
+]
+
+
+def _norm(s):
+    return re.sub(r'\s+', '', s)
+
+
+def _reserve_to_lean(expr):
+    """translate the (size arithmetic) argument of `lhs.reserve(...)` into a Lean Nat expression in `l` (lhs.size()) and `r` (rhs.size())"""
+    e = expr.replace('lhs.size()', 'l').replace('rhs.size()', 'r').replace('mid', 'l')
+    e = re.sub(r'std::max\(([^,()]+),([^,()]+)\)', r'(max (\1) (\2))', e)
+    if not re.fullmatch(r'[lr0-9+\-*/() maxin]+', e):
+        raise X.ExtractError('set_union_inplace: cannot translate the reserve argument `%s`' % expr)
+    return re.sub(r'([+\-*/])', r' \1 ', e)
+
+
+def gen_c10sites():
+    texts, bad, rows = {}, [], []
+    for rel, name, lit, n in SITES:
+        if rel not in texts:
+            texts[rel] = _norm(X.strip_comments(X.read(rel)))
+        c = texts[rel].count(_norm(lit))
+        if c != n:
+            bad.append(f'{rel}:{name} (found {c}, expected {n})')
+        rows.append(f'  ("{rel.split("/")[-1]}", "{name}", {c}, {n})')
+    # set_union_inplace: the reserve statement between `mid` and `set_difference`
+    src = X.strip_comments(X.read(UCORE))
+    m = re.search(r'void\s+set_union_inplace\s*\([^)]*\)\s*\{(.*?)std::set_difference', src, re.S)
+    if not m:
+        raise X.ExtractError('set_union_inplace not found in ' + UCORE)
+    res = re.findall(r'lhs\s*\.\s*reserve\s*\((.*?)\)\s*;', m.group(1), re.S)
+    if len(res) == 0:
+        reserve = '0'           # no reserve before the difference pass: nothing is guaranteed (push_back grows as it likes)
+    elif len(res) == 1:
+        reserve = _reserve_to_lean(_norm(res[0]))
+    else:
+        raise X.ExtractError('set_union_inplace: more than one reserve before set_difference')
+    body = ('/- GENERATED by tools/extract_c10.py — do not edit.  Source sites the C10 cursor models transcribe '
+            '(file, site, occurrences found, occurrences the model assumes). -/\n'
+            'namespace AITB.Gen.C10Sites\n\ndef sites : List (String × String × Nat × Nat) := [\n' + ',\n'.join(rows) + '\n]\n\n'
+            f'def pinned : Nat := {len(SITES)}\n\n'
+            '/-- the capacity `set_union_inplace` reserves before its difference pass, as written (l = lhs.size(), r = rhs.size()) -/\n'
+            f'def unionReserve (l r : Nat) : Nat := {reserve}\n\nend AITB.Gen.C10Sites\n')
+    X.write_if_changed('C10Sites', body)
+    if bad:
+        raise X.ExtractError('C10: source sites the cursor models transcribe have changed: ' + '; '.join(bad))
+
+
+GENERATORS = [gen_concepts, gen_c10sites]
 
 if __name__ == '__main__':
     p, r, s = gen_concepts()
